@@ -128,8 +128,8 @@ def startToEnd (r : RLA α) (s e : Nat) : List Nat × List α :=
   let ev := ev.set (ev.length - 1) (e - s)
   (ev, vals)
 
-/-- `RunLengthArray._step_subset(step)` -/
-def stepSubset (eq : α → α → Bool) (r : RLA α) (step : Int) : List Nat × List α :=
+/-- the stride arithmetic of `RunLengthArray._step_subset` for a given (already clamped) step -/
+def stepSubsetCore (eq : α → α → Bool) (r : RLA α) (step : Int) : List Nat × List α :=
   let k := step.natAbs
   let last := r.events.getLast?.getD 0
   let ev := if step < 0 then r.events.reverse.map (last - ·) else r.events
@@ -137,6 +137,11 @@ def stepSubset (eq : α → α → Bool) (r : RLA α) (step : Int) : List Nat ×
   let ev := ev.map (fun i => (i + k - 1) / k)
   let p := removeEmpty ev vs
   joinRuns eq p.1 p.2
+
+/-- `RunLengthArray._step_subset(step)`: the step is clamped to the array length first (every step beyond the length selects the first position only) -/
+def stepSubset (eq : α → α → Bool) (r : RLA α) (step : Int) : List Nat × List α :=
+  let k : Int := ((min step.natAbs (max r.len 1) : Nat) : Int)
+  stepSubsetCore eq r (if step < 0 then -k else k)
 
 /-- `_get_slice(slice(a, b, k))`: bound normalisation through the generated kernel K8 -/
 def getSlice (eq : α → α → Bool) (r : RLA α) (a b k : Option Int) : Option (RLA α) :=
